@@ -357,6 +357,12 @@ def normalize_limb_cases(L, st):
         es = N - s if s > N // 2 else s
         if was != (1 if s > N // 2 else 0) or sig_compact(L, out) != b32(1) + b32(es):
             st.fail("signature_normalize(s=%s): returned %d, s -> %s" % (hex(s), was, hx(sig_compact(L, out)[32:])), {"cfg": L.config, "s": hex(s)})
+        # sigout is optional: with NULL only the "was not normalized" flag is reported, and it must be the same flag
+        was0 = L.ecdsa_signature_normalize(L.ctx, None, sig)
+        st.calls += 1
+        if was0 != was or L.illegal or L.errors:
+            st.fail("signature_normalize(sigout=NULL, s=%s) returned %d, with an output object %d (callbacks %d/%d)" % (hex(s), was0, was, L.illegal, L.errors), {"cfg": L.config, "s": hex(s)})
+            L.cb_reset()
         st.count("normalize-limb-boundary")
         st.nt(("norm", s))
 
